@@ -112,6 +112,19 @@ PROPS = {
         "rule": "one evaluation = one seeded tape on 3 (+joiner) nodes; distinct = distinct tapes plus verified proof triples; non-trivial = at least 3 events",
         "components": _WORLD_A, "assumptions": _WORLD_A_ASSUME,
     }, **_wa()),
+    "C17": {
+        "level": "exploration",
+        "technique": "deterministic simulation in a testing/synctest bubble (fake clock, one stimulus then quiescence): real server.Sender batchers and timers under seeded arrival patterns; conservation and signature-binding oracles",
+        "design_ref": "DESIGN.md §7 C17",
+        "level_text": "The real Sender (batch size 1-20, 1-8 concurrent batchers, interval 10-250 ms, real ed25519 signer) runs on the bubble's fake clock; the harness feeds snapshots with seeded arrival patterns (bursts, trickle slower than the interval, exactly-full batches, arrivals coinciding with timer expiry), one stimulus at a time. Two intervals after arrivals stop every fed snapshot must have left the sender in exactly one batch of 1..BatchSize entries with the configured TTL, unaltered, with a signature that verifies; single-field/bit alterations of snapshot or signature must make verification fail. The FSM-to-sender hand-off is checked in the C05 runs (oracle sender-handoff).",
+        "level_note": "Which batcher receives which snapshot is decided by the Go runtime among goroutines woken by one stimulus; the prototype measurement (DESIGN.md §2) showed behaviour is digest-stable under the one-stimulus rule. Trusted: synctest's fake clock.",
+        "rule": "one evaluation = one seeded arrival tape (20-80 stimuli quick, 60-360 thorough); distinct = distinct (tape, batch size, batchers, interval); non-trivial = at least 3 snapshots fed",
+        "components": ["sender", "gossip", "protocol"],
+        "assumptions": ["testing/synctest fake clock and quiescence detection are sound", "ed25519 from x/crypto"],
+        "quick": {"seeds": 600, "chunk": 40, "wall_s": 240},
+        "thorough": {"seeds": 20000, "chunk": 400, "wall_s": 1800},
+        "gc_off": False, "gomaxprocs": 4,
+    },
     "C14": {
         "level": "exploration",
         "technique": "deterministic simulation: seeded op/reopen tapes on both real back-ends vs per-table sorted-map model, ddmin-minimised replayable tapes",
